@@ -72,29 +72,28 @@ inductive Call (J S C : Type) where
 /-! ### writer-with-exceptions -/
 
 /-- A computation: the calls made, and a value or a propagating exception. -/
-def W (κ α : Type) := List κ × Res α
+structure W (κ α : Type) where
+  trace : List κ
+  res : Res α
 
 namespace W
 variable {κ α β : Type}
 
-def pure (a : α) : W κ α := ([], .ok a)
+def pure (a : α) : W κ α := ⟨[], .ok a⟩
 
 def bind (x : W κ α) (f : α → W κ β) : W κ β :=
-  match x with
-  | (t, .ok a) => ((t ++ (f a).1), (f a).2)
-  | (t, .raise e) => (t, .raise e)
+  match x.res with
+  | .ok a => ⟨x.trace ++ (f a).trace, (f a).res⟩
+  | .raise e => ⟨x.trace, .raise e⟩
 
 /-- `try: x  except <classes h answers for>: return h e` — anything `h` declines propagates. -/
 def tryCatch (x : W κ α) (h : Exc → Option α) : W κ α :=
-  match x with
-  | (t, .ok a) => (t, .ok a)
-  | (t, .raise e) =>
+  match x.res with
+  | .ok a => ⟨x.trace, .ok a⟩
+  | .raise e =>
     match h e with
-    | some a => (t, .ok a)
-    | none => (t, .raise e)
-
-def trace (x : W κ α) : List κ := x.1
-def result (x : W κ α) : Res α := x.2
+    | some a => ⟨x.trace, .ok a⟩
+    | none => ⟨x.trace, .raise e⟩
 
 end W
 
@@ -107,13 +106,13 @@ variable {J S C : Type}
 
 abbrev Tr (J S C : Type) := List (Call J S C)
 
-def cLoads (env : Env J S C) (t : Text) : W (Call J S C) J := ([.loads t (env.loads t)], env.loads t)
+def cLoads (env : Env J S C) (t : Text) : W (Call J S C) J := ⟨[.loads t (env.loads t)], env.loads t⟩
 def cFindall (env : Env J S C) (i : Nat) (t : Text) : W (Call J S C) (List Text) :=
-  ([.findall i t (env.findall i t)], env.findall i t)
-def cSub (env : Env J S C) (i : Nat) (t : Text) : W (Call J S C) Text := ([.sub i t (env.sub i t)], env.sub i t)
-def cValidate (env : Env J S C) (d : J) : W (Call J S C) S := ([.validate d (env.validate d)], env.validate d)
+  ⟨[.findall i t (env.findall i t)], env.findall i t⟩
+def cSub (env : Env J S C) (i : Nat) (t : Text) : W (Call J S C) Text := ⟨[.sub i t (env.sub i t)], env.sub i t⟩
+def cValidate (env : Env J S C) (d : J) : W (Call J S C) S := ⟨[.validate d (env.validate d)], env.validate d⟩
 def cCoerce (env : Env J S C) (d : J) : W (Call J S C) (J × List C) :=
-  ([.coerce d (env.coerce d)], env.coerce d)
+  ⟨[.coerce d (env.coerce d)], env.coerce d⟩
 
 /-! ### the tables (indices into `JSON_EXTRACTION_PATTERNS` and `JSON_REPAIRS`) -/
 
